@@ -397,6 +397,119 @@ Qed.
 End Inv.
 
 (* ---------------------------------------------------------------------------------------- *)
+(* What a headers message may do to the stored chain                                         *)
+
+(* start block known before: the start height stays and the chain is only cut back (a revert to a fork
+   point) - nothing is appended by the headers handler, every block above the fork point must come
+   through ProcessBlock.  start block not found before: either it is still not found, or it was found
+   at a height that is at least the length of what is stored (nothing stored at / above the start height) *)
+Definition hdr_rel (s s' : sync) : Prop :=
+  (start_height s <> -1 -> start_height s' = start_height s /\ exists n, chain s' = take n (chain s)) /\
+  (start_height s = -1 -> start_height s' = -1 \/ zlen (chain s') <= start_height s').
+
+Lemma hdr_rel_refl s : hdr_rel s s.
+Proof.
+  split.
+  - intros _. split; [reflexivity|]. exists (length (chain s)). rewrite take_ge; [reflexivity|lia].
+  - intros H. left. exact H.
+Qed.
+
+Lemma hdr_rel_same s s' : chain s' = chain s -> start_height s' = start_height s -> hdr_rel s s'.
+Proof.
+  intros Hc Hs. split.
+  - intros _. split; [exact Hs|]. exists (length (chain s)). rewrite Hc, take_ge; [reflexivity|lia].
+  - intros H. left. congruence.
+Qed.
+
+Lemma zlen_take_le {A} n (l : list A) : zlen (take n l) <= zlen l.
+Proof. unfold zlen. rewrite take_length. lia. Qed.
+
+Lemma hdr_rel_trans s1 s2 s3 : hdr_rel s1 s2 -> hdr_rel s2 s3 -> hdr_rel s1 s3.
+Proof.
+  intros [A1 A2] [B1 B2]. split.
+  - intros H. destruct (A1 H) as [Hs (n & Hn)]. assert (H2 : start_height s2 <> -1) by congruence.
+    destruct (B1 H2) as [Hs' (m & Hm)]. split; [congruence|]. exists (m `min` n)%nat. rewrite Hm, Hn, take_take. reflexivity.
+  - intros H. destruct (A2 H) as [H2|H2].
+    + exact (B2 H2).
+    + assert (Hne : start_height s2 <> -1) by (pose proof (zlen_nonneg' (chain s2)); lia).
+      destruct (B1 Hne) as [Hs' (m & Hm)]. right. rewrite Hs', Hm. pose proof (zlen_take_le m (chain s2)). lia.
+Qed.
+
+Section HdrRel.
+Variables MAXR LIM : Z.
+
+Lemma request_block_rel s prev h : hdr_rel s (request_block MAXR LIM s prev h).1.
+Proof.
+  unfold request_block. destruct (add_block_request MAXR LIM (rq s) prev h) as [r1 [[|]|e|]];
+    apply hdr_rel_same; reflexivity.
+Qed.
+
+Lemma check_start_height_rel s h : hdr_rel s (check_start_height s h).1.
+Proof.
+  unfold check_start_height. destruct (start_height s =? -1) eqn:E; [|apply hdr_rel_refl].
+  apply Z.eqb_eq in E. destruct (start_hash s =? fst h); cbn [fst].
+  - split; [intros H; contradiction|]. intros _. right. cbn. unfold height. lia.
+  - split; [intros H; contradiction|]. intros _. left. exact E.
+Qed.
+
+Lemma revert_rel s rh :
+  let s1 := upd_rq (clear_in_sync s) (clear_all (rq s)) in
+  let s2 := take_chain s1 rh in
+  hdr_rel s (upd_rq s2 (set_last_hash (rq s2) (tip s2))).
+Proof.
+  cbv zeta. split.
+  - intros _. split; [reflexivity|]. eexists. reflexivity.
+  - intros H. left. exact H.
+Qed.
+
+Lemma headers_loop_rel hs : forall s lh acc m, hdr_rel s (headers_loop MAXR LIM s lh hs acc m).1.1.
+Proof.
+  induction hs as [|h hs IH]; intros s lh acc m; [apply hdr_rel_refl|].
+  cbn [headers_loop].
+  destruct (lh =? snd h).
+  - pose proof (check_start_height_rel s h) as H1.
+    destruct (check_start_height s h) as [s1 req]. cbn [fst] in H1. destruct req.
+    + pose proof (request_block_rel s1 (snd h) (fst h)) as H2.
+      destruct (request_block MAXR LIM s1 (snd h) (fst h)) as [s2 send]. cbn [fst] in H2.
+      eapply hdr_rel_trans; [eapply hdr_rel_trans; [exact H1|exact H2]|apply IH].
+    + eapply hdr_rel_trans; [exact H1|apply IH].
+  - destruct (fst h =? lh); [apply IH|].
+    destruct (contains s (fst h) || is_requested (rq s) (fst h) || is_to_be_requested (rq s) (fst h)); [apply IH|].
+    destruct (is_requested (rq s) (snd h) || is_to_be_requested (rq s) (snd h)).
+    + match goal with |- context [request_block MAXR LIM ?s0 ?a ?b] =>
+        pose proof (request_block_rel s0 a b) as H2; destruct (request_block MAXR LIM s0 a b) as [s2 send] end.
+      cbn [fst] in H2. eapply hdr_rel_trans; [|apply IH].
+      eapply hdr_rel_trans; [|exact H2]. apply hdr_rel_same; reflexivity.
+    + destruct (height_of s (snd h)) as [rh|]; [|apply hdr_rel_same; reflexivity].
+      destruct (rh =? height s).
+      * eapply hdr_rel_trans; [|apply IH]. apply hdr_rel_same; reflexivity.
+      * pose proof (revert_rel s rh) as H0. cbv zeta in H0.
+        match goal with |- context [check_start_height ?s3 h] =>
+          pose proof (check_start_height_rel s3 h) as H1; destruct (check_start_height s3 h) as [s4 req] end.
+        cbn [fst] in H1. destruct req.
+        -- pose proof (request_block_rel s4 (snd h) (fst h)) as H2.
+           destruct (request_block MAXR LIM s4 (snd h) (fst h)) as [s5 send]. cbn [fst] in H2.
+           eapply hdr_rel_trans; [|apply IH]. eapply hdr_rel_trans; [|exact H2].
+           eapply hdr_rel_trans; [exact H0|exact H1].
+        -- eapply hdr_rel_trans; [|apply IH]. eapply hdr_rel_trans; [exact H0|exact H1].
+Qed.
+
+(* the headers handler with the start block known never appends to the stored chain *)
+Lemma handle_headers_rel s hs : hdr_rel s (handle_headers MAXR LIM s hs).1.
+Proof.
+  unfold handle_headers.
+  match goal with |- context [if ?b then _ else _] => destruct b end.
+  - cbn [fst]. apply hdr_rel_same; cbn;
+      repeat match goal with |- context [if ?b then _ else _] => destruct b end; reflexivity.
+  - pose proof (headers_loop_rel hs s (last_hash (rq s)) [] false) as H.
+    destruct (headers_loop MAXR LIM s (last_hash (rq s)) hs [] false) as [[s1 res] m]. cbn [fst] in H.
+    destruct res as [acc|]; cbn [fst]; [|exact H]. destruct m; [|exact H].
+    eapply hdr_rel_trans; [exact H|apply hdr_rel_same; reflexivity].
+Qed.
+
+End HdrRel.
+
+(* ---------------------------------------------------------------------------------------- *)
 (* Every operation preserves the invariant                                                   *)
 
 Section Ops.
@@ -536,6 +649,12 @@ End Ops.
 (* ---------------------------------------------------------------------------------------- *)
 (* One step: invariant, shape of the observation, how the chain changed                      *)
 
+Definition start_rel (o : op) (s s1 : sync) : Prop :=
+  match o with
+  | OHeaders _ => hdr_rel s s1
+  | _ => True
+  end.
+
 Definition chain_rel (o : op) (c c1 : list hdr) (p : list Z) : Prop :=
   match o with
   | OProcess =>
@@ -554,7 +673,7 @@ Notation step := (step MAXR LIM HT HDT BT DELTA parent_of).
 Notation run_from := (run_from MAXR LIM HT HDT BT DELTA parent_of).
 Notation op_ok := (fun o => Forall (fun h : hdr => fst h <> 0 /\ snd h = parent_of (fst h)) (op_headers o)).
 
-Lemma step_spec w o w1 ob :
+Lemma step_spec_chain w o w1 ob :
   step w o = (w1, ob) -> Inv (w_sync w) -> op_ok o ->
   Inv (w_sync w1) /\
   exists code p, ob = code :: digest (w_sync w1) ++ p /\
@@ -618,6 +737,21 @@ Proof.
     injection H as <- <-. cbn [w_sync]. split; [exact HI|]. eexists _, _. split; reflexivity.
 Qed.
 
+Lemma step_spec w o w1 ob :
+  step w o = (w1, ob) -> Inv (w_sync w) -> op_ok o ->
+  Inv (w_sync w1) /\
+  exists code p, ob = code :: digest (w_sync w1) ++ p /\
+                 chain_rel o (chain (w_sync w)) (chain (w_sync w1)) p /\
+                 start_rel o (w_sync w) (w_sync w1).
+Proof.
+  intros H HI Hok. destruct (step_spec_chain w o w1 ob H HI Hok) as (HI1 & code & p & Hob & Hrel).
+  split; [exact HI1|]. exists code, p. split; [exact Hob|]. split; [exact Hrel|].
+  destruct o; try exact I. cbn [start_rel].
+  unfold Sync.step in H. cbv beta iota zeta in H.
+  pose proof (handle_headers_rel MAXR LIM (w_sync w) hs) as Hr.
+  destruct (handle_headers MAXR LIM (w_sync w) hs) as [s1 res]. injection H as <- _. exact Hr.
+Qed.
+
 Lemma w_after_inv ops : forall w,
   Inv (w_sync w) -> Forall op_ok ops ->
   Inv (w_sync (fold_left (fun w o => fst (step w o)) ops w)).
@@ -647,7 +781,7 @@ Lemma parse_obs_digest code s p :
   Some (DG (negb (b2z (ready s) =? 0))
            (negb (b2z (match chain s with [] => true | h :: c' => linked_from (fst h) c' end) =? 0))
            (negb (b2z (nodup_ids (chain s)) =? 0))
-           (zlen (requested (rq s)))
+           (zlen (requested (rq s))) (start_height s)
            (map fst (chain s)) p).
 Proof.
   unfold digest. cbn [app]. unfold parse_obs.
@@ -674,17 +808,24 @@ Notation step := (step MAXR LIM HT HDT BT DELTA parent_of).
 Notation run_from := (run_from MAXR LIM HT HDT BT DELTA parent_of).
 Notation op_ok := (fun o => Forall (fun h : hdr => fst h <> 0 /\ snd h = parent_of (fst h)) (op_headers o)).
 
-Lemma c02_step_ok o s s1 p :
-  Inv s -> Inv s1 -> chain_rel o (chain s) (chain s1) p ->
-  c02_step MAXR (map fst (chain s)) o
+Lemma is_prefix_take n (l : list Z) : is_prefix (take n l) l = true.
+Proof.
+  revert n. induction l as [|x l IH]; intros [|n]; try reflexivity.
+  cbn [take is_prefix]. rewrite Z.eqb_refl. apply IH.
+Qed.
+
+Lemma c02_step_ok o s s1 p ps :
+  Inv s -> Inv s1 -> chain_rel o (chain s) (chain s1) p -> start_rel o s s1 ->
+  ps = -2 \/ ps = start_height s ->
+  c02_step MAXR ps (map fst (chain s)) o
     (DG (negb (b2z (ready s1) =? 0))
         (negb (b2z (match chain s1 with [] => true | h :: c' => linked_from (fst h) c' end) =? 0))
         (negb (b2z (nodup_ids (chain s1)) =? 0))
-        (zlen (requested (rq s1)))
+        (zlen (requested (rq s1))) (start_height s1)
         (map fst (chain s1)) p) = 0.
 Proof.
-  intros (Hc & _ & _) (Hc1 & _ & Hw1) Hrel.
-  unfold c02_step. cbn [d_linked d_inverse d_nreq d_payload d_chain].
+  intros (Hc & _ & _) (Hc1 & _ & Hw1) Hrel Hsrel Hps.
+  unfold c02_step. cbn [d_linked d_inverse d_nreq d_payload d_chain d_start].
   rewrite (chain_inv_digest_linked _ _ Hc1).
   destruct (chain_inv_ok _ rk rk_lt _ Hc1) as (_ & _ & Hnd). rewrite Hnd.
   cbn [b2z Z.eqb negb].
@@ -694,9 +835,26 @@ Proof.
   destruct o; cbn [chain_rel] in Hrel;
     try (rewrite Hrel, zeq_refl; reflexivity).
   - (* OHeaders *)
-    rewrite El, El1. cbn [common_prefix Z.eqb]. rewrite zlen_cons'.
-    pose proof (zlen_nonneg' (common_prefix l l1)) as Hn.
-    destruct (Z.ltb_spec (1 + zlen (common_prefix l l1)) 1) as [Hlt|_]; [lia|reflexivity].
+    assert (H221 : (zlen (common_prefix (map fst (chain s)) (map fst (chain s1))) <? 1) = false).
+    { rewrite El, El1. cbn [common_prefix Z.eqb]. rewrite zlen_cons'.
+      pose proof (zlen_nonneg' (common_prefix l l1)) as Hn. apply Z.ltb_ge. lia. }
+    rewrite H221. cbn [start_rel] in Hsrel. destruct Hsrel as [Hknown Hpre].
+    assert (H222 : ((0 <=? ps) && negb (is_prefix (map fst (chain s1)) (map fst (chain s)))) = false).
+    { destruct (Z.leb_spec 0 ps) as [Hge|Hlt]; [|reflexivity]. cbn [andb].
+      assert (Hs : start_height s <> -1) by (destruct Hps as [Hps|Hps]; lia).
+      destruct (Hknown Hs) as [_ (n & Hn)]. rewrite Hn.
+      assert (E : map fst (take n (chain s)) = take n (map fst (chain s))).
+      { clear. revert n. induction (chain s) as [|x c IH]; intros [|n]; cbn; try reflexivity. f_equal. apply IH. }
+      rewrite E, is_prefix_take. reflexivity. }
+    rewrite H222.
+    assert (H223 : ((ps =? -1) && (0 <=? start_height s1) && (start_height s1 <? zlen (map fst (chain s1)))) = false).
+    { destruct (Z.eqb_spec ps (-1)) as [E|_]; [|reflexivity]. cbn [andb].
+      assert (Hs : start_height s = -1) by (destruct Hps as [Hps|Hps]; lia).
+      assert (Hz : zlen (map fst (chain s1)) = zlen (chain s1)) by (unfold zlen; rewrite map_length; reflexivity).
+      rewrite Hz. destruct (Hpre Hs) as [H|H].
+      - rewrite H. reflexivity.
+      - destruct (0 <=? start_height s1); [cbn [andb]; apply Z.ltb_ge; lia|reflexivity]. }
+    rewrite H223. reflexivity.
   - (* OProcess *)
     destruct Hrel as [[-> ->]|[(id & rest & -> & ->)|(id & rest & -> & Hm)]].
     + rewrite zeq_refl. reflexivity.
@@ -707,17 +865,17 @@ Proof.
       rewrite Hz, Z.eqb_refl. cbn [negb]. rewrite Hm, zeq_refl. reflexivity.
 Qed.
 
-Lemma c02_from_ok ops : forall w i,
-  Inv (w_sync w) -> Forall op_ok ops ->
-  c02_from MAXR (map fst (chain (w_sync w))) i ops (run_from w ops) = None.
+Lemma c02_from_ok ops : forall w i ps,
+  Inv (w_sync w) -> Forall op_ok ops -> ps = -2 \/ ps = start_height (w_sync w) ->
+  c02_from MAXR ps (map fst (chain (w_sync w))) i ops (run_from w ops) = None.
 Proof.
-  induction ops as [|o ops IH]; intros w i HI Hops; [reflexivity|].
+  induction ops as [|o ops IH]; intros w i ps HI Hops Hps; [reflexivity|].
   inversion Hops as [|o0 ops0 Ho Hops' E0]; subst o0 ops0.
   cbn [Sync.run_from]. destruct (step w o) as [w1 ob] eqn:Es.
-  apply step_spec in Es as (HI1 & code & p & -> & Hrel); [|exact HI|exact Ho].
+  apply step_spec in Es as (HI1 & code & p & -> & Hrel & Hsrel); [|exact HI|exact Ho].
   cbn [c02_from]. rewrite parse_obs_digest.
-  rewrite (c02_step_ok o (w_sync w) (w_sync w1) p HI HI1 Hrel).
-  cbn [Z.eqb negb d_chain]. apply IH; assumption.
+  rewrite (c02_step_ok o (w_sync w) (w_sync w1) p ps HI HI1 Hrel Hsrel Hps).
+  cbn [Z.eqb negb d_chain d_start]. apply IH; [assumption|assumption|right; reflexivity].
 Qed.
 
 End Monitor.
@@ -748,7 +906,7 @@ Proof.
   change (run MAXR LIM HT HDT BT DELTA parents start ops)
     with (run_from MAXR LIM HT HDT BT DELTA (table_fn parents) (w_init start) ops).
   change [0] with (map fst (chain (w_sync (w_init start)))).
-  eapply c02_from_ok; [exact Hrk|exact HM|apply w_init_inv|exact Hhs].
+  eapply c02_from_ok; [exact Hrk|exact HM|apply w_init_inv|exact Hhs|left; reflexivity].
 Qed.
 
 Theorem c02_monitor_passes_consts :
